@@ -12,6 +12,7 @@ use std::collections::{BTreeMap, BTreeSet};
 pub mod cache;
 pub mod control;
 pub mod data;
+pub mod mirror;
 pub mod router;
 pub mod routing;
 pub mod security;
@@ -212,6 +213,7 @@ pub fn evaluate(spec: &Spec, completed: bool) -> Vec<Violation> {
             "c06_shards" => router::c06_shards(&mut cx),
             "c05_roles" => router::c05_roles(&mut cx),
             "c19_plugins" => router::c19_plugins(&mut cx),
+            "c20_mirrors" => mirror::c20_mirrors(&mut cx),
             "c07_bans" => routing::c07_bans(&mut cx),
             "c07_expiry" => routing::c07_expiry(&mut cx),
             other => {
